@@ -26,6 +26,20 @@ theorem tie_append_locked :
     isolatedAppendError = ["Lock:errorsMU", "read:errors", "write:errors", "Unlock:errorsMU", "call:scp.Stop"] ∧
     plainErrorWriters = ["AppendError"] ∧ isolatedErrorWriters = ["AppendError"] := by decide
 
+/-- The publication order (`ScopePublish.Order.recordThenClose`; in `ScopeSignal`: `PC.appWrite` before
+`PC.stopEnter`): in `AppendError` of both context types the error list is written and `errorsMU` released
+before the one call of `Stop`, and `AppendError` does nothing to the done channel on its own.  Stated on
+positions so that it names exactly this decision (`tie_append_locked` pins the whole action list). -/
+theorem tie_record_then_close :
+    plainAppendError.idxOf "write:errors" < plainAppendError.idxOf "Unlock:errorsMU" ∧
+    plainAppendError.idxOf "Unlock:errorsMU" < plainAppendError.idxOf "call:s.Stop" ∧
+    plainAppendError.count "call:s.Stop" = 1 ∧ plainAppendError.count "write:errors" = 1 ∧
+    plainAppendError.count "close:done" = 0 ∧
+    isolatedAppendError.idxOf "write:errors" < isolatedAppendError.idxOf "Unlock:errorsMU" ∧
+    isolatedAppendError.idxOf "Unlock:errorsMU" < isolatedAppendError.idxOf "call:scp.Stop" ∧
+    isolatedAppendError.count "call:scp.Stop" = 1 ∧ isolatedAppendError.count "write:errors" = 1 ∧
+    isolatedAppendError.count "close:done" = 0 := by decide
+
 /-- the accessors read the list holding `errorsMU` (`Variant.lockRead`; `PC.errLock`, `errRead`), `Err`
 goes through `Errors`, `Kill` is `AppendError(context.Canceled)`, `IsDone` is a receive on `done`. -/
 theorem tie_accessors_locked :
